@@ -47,6 +47,7 @@ for p in $prop "$@"; do
 done
 cd /verif
 git -C /repo worktree remove --force "$ev" >/dev/null 2>&1
+[ -n "${SEEDED_NO_META:-}" ] && exit 0
 python3 - "$out/meta.json" "$name" "$prop" "$valid" "$suite_with" "$demo_with" "$demo_without" "$demodir" "[${results%,}]" <<'PY'
 import json, sys
 path, name, prop, valid, sw, dw, dwo, demodir, results = sys.argv[1:10]
